@@ -215,7 +215,12 @@ import glob as _glob, importlib as _importlib, os as _os
 for _f in sorted(_glob.glob(_os.path.join(_os.path.dirname(__file__), "reg_C*.py"))):
     _name = _os.path.basename(_f)[:-3]
     _pid = _name[4:]
-    _m = _importlib.import_module("vlib." + _name)
+    try:
+        _m = _importlib.import_module("vlib." + _name)
+    except Exception as _e:  # a fragment under construction must not break the other checks
+        import sys as _sys
+        print("registry: fragment %s skipped: %r" % (_name, _e), file=_sys.stderr)
+        continue
     if hasattr(_m, "CHECK"):
         CHECKS[_pid] = _m.CHECK
     if hasattr(_m, "NOT_APPLICABLE_REASON"):
